@@ -230,9 +230,10 @@ fn validate_command_part(command: &str) -> Result<(), CommandErrorKind> {
 
 /// Validate an argument.
 fn validate_argument(argument: &[u8]) -> Result<(), CommandErrorKind> {
-    match argument.iter().position(|&c| c == b'\n') {
+    // A NUL byte ends the line as far as MPD is concerned, silently cutting off the rest
+    match argument.iter().position(|&c| c == b'\n' || c == b'\0') {
         None => Ok(()),
-        Some(i) => Err(CommandErrorKind::InvalidCharacter(i, '\n')),
+        Some(i) => Err(CommandErrorKind::InvalidCharacter(i, char::from(argument[i]))),
     }
 }
 
